@@ -316,10 +316,19 @@ def run_server_segmentations(o, ctx, t, r):
             continue
         streams.append((4096, w[:he + 4], b"", None))
         k += 1
+    # long field lines under a larger (non-default) head limit: lines of 4 KiB, 8 KiB and just above 8190 bytes, cut at every position
+    # near the END of the long line (a verdict on an unfinished line must be `incomplete`, however long the line already is)
+    long_cuts = {}
+    for L in ((4100, 8186, 8195, 8300) if t == "quick" else (1000, 4095, 4100, 8180, 8186, 8190, 8191, 8195, 8200, 8300, 12000)):
+        line_ = b"Authorization: Bearer " + b"t" * (L - 22)
+        hd = b"GET /p/1/2 HTTP/1.1\r\n" + line_ + b"\r\nHost: x\r\n\r\n"
+        streams.append((16384, hd, b"", "R200:0:" + hx(b"1,2")))
+        eol = hd.index(line_) + len(line_)
+        long_cuts[hd] = [[c] for c in range(eol - 18, eol + 3)]
     lines, groups = [], []
     for mx, head, body, exp in streams:
         st = head + body
-        cutsets = [[], [len(head)]]
+        cutsets = [[], [len(head)]] + long_cuts.get(head, [])
         for c in range(max(1, len(head) - 3), min(len(st), len(head) + 3)):
             cutsets.append([c])
         if mx < len(st):
